@@ -107,6 +107,9 @@ class World:
         self.Failure = twisted.python.failure.Failure
         self.Deferred = twisted.internet.defer.Deferred
         self.tmp = tempfile.mkdtemp(prefix='verif-fsm-')
+        import atexit
+        import shutil
+        atexit.register(shutil.rmtree, self.tmp, ignore_errors=True)   # scratch only; nothing is read back later
         os.makedirs(os.path.join(self.tmp, 'ae', '.git'))
         dawgie.context.fe_path = self.tmp
         dawgie.context.ae_base_path = os.path.join(self.tmp, 'ae')
